@@ -29,7 +29,9 @@ check("C20",
       "instrumented operators and random operator behaviours are added (up to 6 replicates x 8 generations); each "
       "recorded call trace (identity of containers/members received and returned, content fingerprints, t_cur, "
       "lbook.rep, mcfg, miscout token, start fingerprints after every call) is validated by TLC against the spec "
-      "actions (BreedingLoop_Trace) with Reset/Tick as silent inferred steps.",
+      "actions (BreedingLoop_Trace) with Reset/Tick as silent inferred steps. Direct advance(k) and reset() calls after evolve() "
+      "has returned are actions of the same module (MoreAdvance, ResetCall; time continues from where the programme stands, "
+      "CycleTicksByOne) and are driven and logged in about half of the random runs.",
       "Operators and logbook are instrumented subclasses (no in-repo hook); content equality is fingerprint equality "
       "of dict containers of small mutable members.",
       "TLA+ spec (BreedingLoop.tla) model-checked by TLC, inductive invariant for unbounded counters by Apalache + TLC trace validation of recorded call traces; spec->code replay of TLC-simulated behaviours",
@@ -42,7 +44,8 @@ check("C17",
       "exchange search (all 3x2, 2x3, 2x2 tables over 3 symbols: multiset preserved, duplicate count never increases, "
       "terminates, stops only at 1-exchange local optima). Real executions are validated by TLC (Sampling_Trace): the "
       "same SUS grid with scripted offsets (pointer-walk equality away from exact ties), real generators with "
-      "wide-magnitude/tied/zero weights and 1-d/2-d sizes, tiled choice balance, axis shuffle slice confinement, and "
+      "wide-magnitude/tied/zero weights and 1-d/2-d sizes, tiled choice balance, axis shuffle slice confinement (C-ordered, "
+      "Fortran-ordered, transposed and strided arrays), and "
       "outcross runs recorded as one table snapshot per outer iteration (each step must be one improving exchange; "
       "half of the runs use an adversarial exchange order).",
       "Proportionality is checked on integer weight vectors (the code receives them times a float scale); offset exactly "
@@ -76,7 +79,8 @@ check("C02",
       "(J,U) grid point is replayed through the real mat_meiosis and dense_meiosis with scripted dyadic draws and the "
       "produced gamete is compared by TLC with the spec's gamete (decides '<' at the equality boundary, the starting "
       "copy and segment copying exhaustively). Statistical sanity: real PCG64 streams through both functions and all "
-      "seven protocols, all locus pairs + segregation against TLC-computed exact probabilities.",
+      "seven protocols, all locus pairs + segregation against TLC-computed exact probabilities; with selfing generations inside "
+      "the DH protocols (nself 1, 2) the joint parent of origin of two loci is z-tested against the tables TLC enumerates in ProgenyVar.",
       "Assumes numpy's generators are iid U[0,1); statistical sub-check at |z|<=5.5 with one independent 4x re-test; a "
       "scripted replay whose draw requests differ in shape from the spec's is inapplicable (not a violation).",
       "TLA+ spec (MeiosisProb.tla) exact counting by TLC + scripted-draw replay validated by TLC + z-tests on TLC-computed probabilities",
